@@ -2,7 +2,7 @@
 
 ENTRY = {'parts': [{'scenario': 'scenarios.s_pool', 'chunk': 6, 'frac': 0.75},
                    {'scenario': 'scenarios.s_einfo', 'chunk': 50, 'frac': 0.25}],
-         'quick': {'runs': 3000, 'budget': 60}, 'thorough': {'runs': 200000, 'budget': 1200}}
+         'quick': {'runs': 3000, 'budget': 45}, 'thorough': {'runs': 200000, 'budget': 1200}}
 
 TEXT = {'level': '(1) inside the pool simulation, for every failed job: the ExceptionInfo that crossed pickle -> '
           'pipe -> unpickle has the original type and args (also BaseException subclasses, 1500-deep '
